@@ -1,9 +1,14 @@
 (* C08 - value completion offers only what fits: visible declarations, conforming values.
    Model: Model/Ref.v (Targets.MatchWalk, localTargetMatches, absTargetMatches, containsMatch,
    Target.Address), compared with the exported functions on every run;
-   Model/FuncCands.v (functionExpr.matchingFunctions), compared with CompletionAtPos on every run. *)
+   Model/FuncCands.v (functionExpr.matchingFunctions), compared with CompletionAtPos on every run;
+   Model/ValueCands.v (CompletionAtPos of every expression kind: which keyword, boolean, literal, collection,
+   object-attribute and map-item candidates are offered where), compared with CompletionAtPos at every offset of
+   generated and focus files on every run. *)
 From Coq Require Import String List ZArith Bool.
-From HV Require Import Base.Pos Model.Addr Model.Schema Model.Ref Proofs.RefProofs Model.FuncCands Proofs.FuncCandsProofs.
+Import ListNotations.
+From HV Require Import Base.Pos Base.Sexp Model.Addr Model.Schema Model.Ref Proofs.RefProofs Model.FuncCands Proofs.FuncCandsProofs
+                       Model.ValueTokens Model.ValueHover Model.ValueCands Proofs.ValueCandsProofs.
 
 (* every declaration the completion walk offers is offered through its local or absolute address *)
 Theorem C08_offered_targets_match : forall conv self_active ref_scope ref_type prefix outer_body origin_rng fuel ts t,
@@ -54,3 +59,31 @@ Theorem C08_function_candidates_order_independent : forall conv funcs funcs' pre
   matching_functions conv funcs prefix expected = matching_functions conv funcs' prefix expected.
 Proof. exact function_candidates_order_independent. Qed.
 Print Assumptions C08_function_candidates_order_independent.
+
+(* keyword candidates are exactly those the constraint admits: (soundness, any depth) a keyword candidate offered
+   anywhere inside a value carries the keyword of a Keyword constraint that occurs in the attribute's constraint -
+   as list / set / map element, tuple position, object attribute or one-of alternative; literal types,
+   any-expressions, function arguments and interpolated keys never yield one *)
+Theorem C08_keyword_candidates_admitted : forall prefill file opens empties vals funcs parens p fuel c e l i,
+  value_cands prefill file opens empties vals funcs parens p fuel c e = Some (Some l) -> In i l -> vi_kind i = kKeyword ->
+  exists kw, has_kw c kw /\ exists n s t sb eb, i = VC kKeyword (Some kw) n s t sb eb.
+Proof.
+  intros prefill file opens empties vals funcs parens p fuel c e l i H Hin Hk.
+  exact (proj1 (Forall_forall _ _) (value_cands_keywords_admitted prefill file opens empties vals funcs parens p fuel c e l H) i Hin Hk).
+Qed.
+Print Assumptions C08_keyword_candidates_admitted.
+
+(* (completeness at the leaf) a Keyword constraint offers its keyword at an empty value ... *)
+Theorem C08_keyword_offered_at_empty_value : forall p kw,
+  keyword_cands p kw CEmpty = vret [VC kKeyword (Some kw) (Some kw) (Some kw) (Some false) (p_byte p) (p_byte p)].
+Proof. exact keyword_at_empty. Qed.
+Print Assumptions C08_keyword_offered_at_empty_value.
+
+(* ... and on a name being typed exactly when the typed text is a prefix of the keyword *)
+Theorem C08_keyword_offered_iff_prefix : forall p kw r vt root rr res,
+  (0 <= p_byte p - rs rr <= Z.of_nat (String.length root))%Z ->
+  keyword_cands p kw (CExpr (SE r vt (NTrav root [TSRoot rr] res))) =
+    if bytes_prefix (String.substring 0 (Z.to_nat (p_byte p - rs rr)) root) kw
+    then vret [VC kKeyword (Some kw) (Some kw) (Some kw) (Some false) (rs r) (re r)] else vnil.
+Proof. exact keyword_on_typed_name. Qed.
+Print Assumptions C08_keyword_offered_iff_prefix.
